@@ -257,6 +257,45 @@ func c18Spaces(tier string) []c18Space {
 	spaces = append(spaces, c18Space{kind: "statement-sequences", total: seqCount(stmtSeqLen), input: func(idx uint64) string {
 		return model.Print([]*model.Script{seqProgram(idx)})
 	}})
+	// constant definitions: every sequence of <= D definitions over three names whose values mention each
+	// other (forward, backward, cyclic, self, redefinition), followed by a program that uses all three names
+	// at every kind of use site
+	constLen := 3
+	if tier == "thorough" {
+		constLen = 4
+	}
+	var constDefsAlphabet []string
+	for _, n := range []string{"A", "B", "C"} {
+		for _, v := range []string{"A", "B", "C", "A + 1", "( B )", "5"} {
+			constDefsAlphabet = append(constDefsAlphabet, "const "+n+" = "+v+"\n")
+		}
+	}
+	const constUse = "script S {\n\tx(A, B + 1, (C))\n\tif (flag(A) && var(B) == C) {\n\t\tswitch (var(C)) {\n\t\t\tcase A:\n\t\t\t\ty\n\t\t\tcase B:\n\t\t\t\tz\n\t\t}\n\t}\n}\nmart Mt {\n\tA\n\tB\n\tC\n}\nmapscripts Mp {\n\tT [\n\t\tA, B: S\n\t\tC, 1 {\n\t\t\tw(A)\n\t\t}\n\t]\n}\n"
+	nCD := uint64(len(constDefsAlphabet))
+	cdTotal, cdPow := uint64(0), uint64(1)
+	for l := 1; l <= constLen; l++ {
+		cdPow *= nCD
+		cdTotal += cdPow
+	}
+	spaces = append(spaces, c18Space{kind: "const-definitions", total: cdTotal, input: func(idx uint64) string {
+		l, pow := 1, nCD
+		for idx >= pow {
+			idx -= pow
+			pow *= nCD
+			l++
+		}
+		var sb strings.Builder
+		for i := 0; i < l; i++ {
+			sb.WriteString(constDefsAlphabet[idx%nCD])
+			idx /= nCD
+		}
+		return sb.String() + constUse
+	}})
+	// the size dimension: every scaled program (templates repeated K times, blocks nested K deep, switches with K cases)
+	scaled := scaledPrograms(tier)
+	spaces = append(spaces, c18Space{kind: "scaled-programs", total: uint64(len(scaled)), input: func(idx uint64) string {
+		return model.Print([]*model.Script{scaled[idx].Script})
+	}})
 	// character strings
 	nC := uint64(len(c18Chars))
 	var chOffsets []uint64
@@ -600,5 +639,5 @@ func runC18(tier string) int {
 		"configurations are a covering set, not the full matrix: every option value appears in at least one configuration",
 		"an error must be a parser.ParseError with 1 <= start line <= end line <= number of lines (counting the empty line after a final newline)")
 	return r.Finish(r.Get("evaluations"), r.Get("nontrivial"),
-		"(a) every sequence of <= L tokens from a 57-lexeme alphabet after each of 29 context prefixes, with 3 suffixes; (b) every single deviation (truncation, deletion, replacement or insertion by every alphabet token) of 10 seed programs that use every production (thorough: pairs of deviations on the small seeds); (c) every sequence of <= S well-formed statement templates (22 templates, shared with C01); (d) every string of <= N characters over 23 characters incl. multi-byte letters, a 3-byte non-letter, U+FFFD, NUL, quote, backtick, CR, bare and inside 'script S { x('; each input under a covering set of configurations (optimize, line markers/path, switches, font file/default font, command configs incl. argument positions -1 and 3, normal and lint); evaluations = input x configuration runs; non-trivial = the input is rejected (an error path is taken)")
+		"(a) every sequence of <= L tokens from a 57-lexeme alphabet after each of 29 context prefixes, with 3 suffixes; (b) every single deviation (truncation, deletion, replacement or insertion by every alphabet token) of 10 seed programs that use every production (thorough: pairs of deviations on the small seeds); (c) every sequence of <= S well-formed statement templates (25 templates, shared with C01); (d) every sequence of <= D constant definitions over three names whose values mention each other, followed by a program using them at every use site; (e) every scaled program (templates repeated K times, blocks nested K deep, switches with K cases); (f) every string of <= N characters over 23 characters incl. multi-byte letters, a 3-byte non-letter, U+FFFD, NUL, quote, backtick, CR, bare and inside 'script S { x('; each input under a covering set of configurations (optimize, line markers/path, switches, font file/default font, command configs incl. argument positions -1 and 3, normal and lint); evaluations = input x configuration runs; non-trivial = the input is rejected (an error path is taken)")
 }
